@@ -39,7 +39,12 @@ static void tables(void) {
   int i = 0;
 #define T_(x) BT[i] = &x; BTN[i] = #x; i++;
   T_(Type) T_(Tuple) T_(Ref) T_(Box) T_(Int) T_(Float) T_(String) T_(Tree) T_(List) T_(Array) T_(Table) T_(Range) T_(Slice)
-  T_(Zip) T_(Filter) T_(Map) T_(ValueError) T_(File) T_(Mutex) T_(Thread) T_(Process) T_(Function) T_(Exception) T_(GC)
+  T_(Zip) T_(Filter) T_(Map) T_(ValueError) T_(File) T_(Mutex) T_(Thread) T_(Process) T_(Function) T_(Exception)
+#ifdef CELLO_NGC
+  T_(Int)                      /* no collector type in this configuration: slot 23 is a stand-in (C18 does not look at it) */
+#else
+  T_(GC)
+#endif
   T_(IOError) T_(KeyError) T_(_) T_(CastAny) T_(CastNone)
 #undef T_
   i = 0;
